@@ -250,8 +250,9 @@ func dqAlphabet(thorough bool) []dualquat.Number {
 		{}, {Real: 1}, {Imag: 1}, {Jmag: 1}, {Kmag: 1}, {Real: -1, Kmag: 1}, {Real: 1, Imag: 1}, {Jmag: 1, Kmag: -1}, {Real: 1, Imag: 1, Jmag: 1, Kmag: 1},
 		{Real: 2}, {Imag: 1, Jmag: 1}, {Real: -1, Imag: 1, Jmag: -1, Kmag: 1}, {Real: 0.5, Jmag: -0.5}, {Imag: -2}, {Real: -1}, {Real: 1, Kmag: -1},
 	}
+	Q = append(Q, quat.Number{Imag: 1, Kmag: 1}, quat.Number{Real: 1, Jmag: 1}, quat.Number{Jmag: 2}, quat.Number{Real: -1, Imag: -1, Jmag: 1, Kmag: 1})
 	if thorough {
-		Q = append(Q, quat.Number{Imag: 1, Kmag: 1}, quat.Number{Real: 1, Jmag: 1}, quat.Number{Jmag: 2}, quat.Number{Real: -1, Imag: -1, Jmag: 1, Kmag: 1},
+		Q = append(Q, quat.Number{Imag: -1, Kmag: 1}, quat.Number{Real: 1, Jmag: -1}, quat.Number{Kmag: 2}, quat.Number{Real: 1, Imag: -1, Jmag: 1, Kmag: -1},
 			quat.Number{Real: 0.5, Imag: 0.5, Jmag: 0.5, Kmag: 0.5}, quat.Number{Kmag: -0.5}, quat.Number{Real: 2, Imag: -2}, quat.Number{Real: 1, Imag: -1, Jmag: -1, Kmag: -1})
 	}
 	var out []dualquat.Number
@@ -342,9 +343,9 @@ func dcClose(a, b dualcmplx.Number, tol float64) bool {
 }
 
 func dcAlphabet(thorough bool) []dualcmplx.Number {
-	C := []complex128{0, 1, -1, 1i, -1i, 1 + 1i, 2, 1 - 2i, 0.5, -1 + 1i, 2i, -0.5i, 3, 2 - 1i, -2 - 2i}
+	C := []complex128{0, 1, -1, 1i, -1i, 1 + 1i, 2, 1 - 2i, 0.5, -1 + 1i, 2i, -0.5i, 3, 2 - 1i, -2 - 2i, 1 - 1i, -1 - 1i, 4, 0.25i, 3 + 4i}
 	if thorough {
-		C = append(C, 1-1i, -1-1i, 4, 0.25i, 3+4i, -3+1i, 0.5+0.5i, -2, 1+2i, 2+2i)
+		C = append(C, -3+1i, 0.5+0.5i, -2, 1+2i, 2+2i, -4i, 0.125, 5-1i, -1+3i, 2-3i)
 	}
 	var out []dualcmplx.Number
 	for _, r := range C {
